@@ -438,6 +438,19 @@ func (d *decEngine) mapEntryLoop(ls *LoopSpec, fs *ast.ForStmt, f *FieldSchema) 
 		c.addObl(Obl{Name: name("entry-other[other fields leave key and value alone]"), Kind: "decode", OpaqueSpec: true, Guard: after.guard,
 			Goal: implies(and(not(is(1)), not(is(2))), and(c.valSame(after, k0, k1), c.valSame(after, v0, v1))), Pos: c.pos(fs.Pos()),
 			Text: "a field of a map entry other than 1 and 2 is skipped"})
+		// the skipped field is the record that starts at the iteration's start index (its tag included): for the
+		// non-group wire types the index after the iteration is the end of exactly that record
+		wt := "(bvand " + tag + " (_ bv7 64))"
+		isw := func(n int) string { return fmt.Sprintf("(= %s (_ bv%d 64))", wt, n) }
+		eq := func(e string) string { return "(= " + i1 + " " + e + ")" }
+		one := "(_ bv1 64)"
+		length := and(implies(isw(0), eq("(bvadd "+d.vend(after, p)+" "+one+")")),
+			and(implies(isw(1), eq("(bvadd "+p+" (_ bv8 64))")),
+				and(implies(isw(5), eq("(bvadd "+p+" (_ bv4 64))")),
+					implies(isw(2), eq("(bvadd (bvadd "+d.vend(after, p)+" "+one+") "+d.vval(after, p)+")")))))
+		c.addObl(Obl{Name: name("entry-other-length[other fields consume exactly their own record]"), Kind: "decode", OpaqueSpec: true, Guard: after.guard,
+			Goal: implies(and(not(is(1)), not(is(2))), length), Pos: c.pos(fs.Pos()),
+			Text: "a field of a map entry other than 1 and 2 is skipped from its tag: the index moves to the end of exactly that record (wire types 0, 1, 2, 5)"})
 	}
 }
 
